@@ -378,6 +378,11 @@ MC_THOROUGH = {
              ["NeverStaleAtRest", "NeverStuck", "FlagsMatchJobs"]),
             ("conv-payload4", {"TagNames": '{"tag/a", "tag/b"}', "ConvNames": '{"cv"}', "MaxCalls": 4, "MaxViews": 0, "Menu": '"conv"', "Invalid": "FALSE",
                                "Extra": '{"convdir"}'},
+             ["NeverStaleAtRest", "NeverStuck", "FlagsMatchJobs"]),
+            # payload filter inside a sub-query: four calls; three calls with a view (on-demand conversion through the view)
+            ("conv-subq4", {"TagNames": '{"tag/a", "tag/b"}', "ConvNames": '{"cv"}', "MaxCalls": 4, "MaxViews": 0, "Menu": '"subq"', "Invalid": "FALSE"},
+             ["NeverStaleAtRest", "NeverStuck", "FlagsMatchJobs"]),
+            ("conv-subq-view", {"TagNames": '{"tag/a", "tag/b"}', "ConvNames": '{"cv"}', "MaxCalls": 3, "MaxViews": 1, "Menu": '"subq"', "Invalid": "FALSE"},
              ["NeverStaleAtRest", "NeverStuck", "FlagsMatchJobs"])],
     "C11": [("rename-color", {"TagNames": '{"tag/a", "tag/b"}', "ConvNames": "{}", "MaxCalls": 3, "MaxViews": 0, "Menu": '"tags"', "Invalid": "TRUE",
                               "Extra": '{"rename", "color"}'},
